@@ -318,9 +318,11 @@ func c14Decode(packed bool, max uint64, chunks []int, ops []string, stream []byt
 			d.MaxMessageSize = parseNum(op[1:])
 		case op == "d":
 			o := Safely(func() string {
+				h0, b0 := d.VerifBufIDs()
 				a0 := totalAlloc()
 				msg, err := d.Decode()
 				a1 := totalAlloc()
+				h1, b1 := d.VerifBufIDs()
 				eff := d.MaxMessageSize
 				if eff == 0 {
 					eff = 64 << 20
@@ -330,7 +332,8 @@ func c14Decode(packed bool, max uint64, chunks []int, ops []string, stream []byt
 				// slice headers, the Message and error values
 				aok := a1-a0 <= eff+eff/8+32768 || eff > 1<<62
 				hc, bc := d.VerifCaps()
-				tail := fmt.Sprintf(":h%d:b%d:%s", hc, bc, bit(aok, "A"))
+				// F<h><b>: did this call replace d.hdrbuf / d.buf by a newly allocated buffer
+				tail := fmt.Sprintf(":h%d:b%d:%s:F%s%s", hc, bc, bit(aok, "A"), bit(h1 != h0, ""), bit(b1 != b0, ""))
 				if err != nil {
 					c := errClass(err, rd)
 					if c == "eof" {
